@@ -125,6 +125,13 @@ func (r *Report) finish(verifDir, tier string, seed int, start time.Time, explan
 	}
 	r.Obls = obls
 
+	if pat := os.Getenv("FINLINT_DEBUG_OBL"); pat != "" {
+		for _, o := range r.Obls {
+			if strings.Contains(o.Key, pat) {
+				fmt.Printf("DBG obl ok=%v %s | %s\n", o.OK, o.Key, o.Detail)
+			}
+		}
+	}
 	var violations, knownHits []Obligation
 	discharged := 0
 	for _, o := range r.Obls {
